@@ -13,9 +13,60 @@ def toStep : List Cps → List (Nat × Bool)
   | [] => []
   | e :: r => (e.lo, true) :: (e.hi + 1, false) :: toStep r
 
+theorem eqCp_eq_bounds (e : Cps) (cp : Nat) :
+    e.eqCp cp = (decide (e.lo ≤ cp) && decide (cp ≤ e.hi)) := by
+  cases e with
+  | single c =>
+    show (c == cp) = (decide (c ≤ cp) && decide (cp ≤ c))
+    by_cases hc : c = cp
+    · subst hc; simp
+    · have h1 : (c == cp) = false := by simp [hc]
+      have h2 : (decide (c ≤ cp) && decide (cp ≤ c)) = false := by
+        rw [Bool.and_eq_false_iff]; simp only [decide_eq_false_iff_not]; omega
+      rw [h1, h2]
+  | range a b => rfl
+
+theorem sortedTable_tail (e : Cps) (r : List Cps) (h : sortedTable (e :: r) = true) :
+    sortedTable r = true := by
+  cases r with
+  | nil => rfl
+  | cons e' r =>
+    simp only [sortedTable, Bool.and_eq_true] at h
+    exact h.2
+
+theorem sortedTable_head (e : Cps) (r : List Cps) (h : sortedTable (e :: r) = true) :
+    e.lo ≤ e.hi + 1 ∧ ∀ x ∈ r, e.hi < x.lo := by
+  obtain ⟨hp, hb⟩ := sortedTable_pairwise _ h
+  exact ⟨hb e (by simp), (List.pairwise_cons.mp hp).1⟩
+
+theorem memL_eq_false_of_lt (cp : Nat) (r : List Cps) (h : ∀ x ∈ r, cp < x.lo) :
+    memL cp r = false := by
+  unfold memL
+  rw [List.any_eq_false]
+  intro x hx
+  have := h x hx
+  rw [eqCp_eq_bounds]
+  simp; omega
+
 theorem eval_toStep (t : List Cps) (h : sortedTable t = true) (cp : Nat) :
     eval false (toStep t) cp = memL cp t := by
-  sorry
+  induction t with
+  | nil => rfl
+  | cons e r ih =>
+    obtain ⟨hb, hr⟩ := sortedTable_head e r h
+    have ih := ih (sortedTable_tail e r h)
+    have hm : memL cp (e :: r) = (e.eqCp cp || memL cp r) := by simp [memL]
+    rw [hm, eqCp_eq_bounds]
+    simp only [toStep, eval]
+    by_cases h1 : cp < e.lo
+    · have : memL cp r = false :=
+        memL_eq_false_of_lt cp r (fun x hx => by have := hr x hx; omega)
+      simp [h1, this]; omega
+    · by_cases h2 : cp < e.hi + 1
+      · simp [h1, h2]; omega
+      · simp only [h1, h2, if_false, ih]
+        have : decide (cp ≤ e.hi) = false := by simp; omega
+        simp [this]
 
 /-- valued table → step function (default `none`) -/
 def toStepV {V} : List (Cps × V) → List (Nat × Option V)
@@ -24,25 +75,107 @@ def toStepV {V} : List (Cps × V) → List (Nat × Option V)
 
 theorem eval_toStepV {V} (t : List (Cps × V)) (h : sortedTable (t.map (·.1)) = true) (cp : Nat) :
     eval none (toStepV t) cp = lookupL cp t := by
-  sorry
+  induction t with
+  | nil => rfl
+  | cons x r ih =>
+    obtain ⟨e, v⟩ := x
+    simp only [List.map_cons] at h
+    obtain ⟨hb, hr⟩ := sortedTable_head e _ h
+    have ih := ih (sortedTable_tail e _ h)
+    simp only [toStepV, eval, lookupL]
+    rw [eqCp_eq_bounds]
+    by_cases h1 : cp < e.lo
+    · have : lookupL cp r = none := by
+        apply lookupL_eq_none
+        intro y hy
+        have := hr y.1 (List.mem_map.mpr ⟨y, hy, rfl⟩)
+        rw [eqCp_eq_bounds]
+        simp; omega
+      have hd : decide (e.lo ≤ cp) = false := by simp; omega
+      simp [h1, this, hd]
+    · by_cases h2 : cp < e.hi + 1
+      · have hd1 : decide (e.lo ≤ cp) = true := by simp; omega
+        have hd2 : decide (cp ≤ e.hi) = true := by simp; omega
+        simp [h1, h2, hd1, hd2]
+      · have hd2 : decide (cp ≤ e.hi) = false := by simp; omega
+        simp only [h1, h2, if_false, ih, hd2, Bool.and_false]
+        simp
 
 /-- `(lo, hi)` pair table → step function -/
 def pairsToStep : List (Nat × Nat) → List (Nat × Bool)
   | [] => []
   | e :: r => (e.1, true) :: (e.2 + 1, false) :: pairsToStep r
 
+theorem sortedPairs_tail (e : Nat × Nat) (r : List (Nat × Nat)) (h : sortedPairs (e :: r) = true) :
+    sortedPairs r = true := by
+  cases r with
+  | nil => rfl
+  | cons e' r =>
+    simp only [sortedPairs, Bool.and_eq_true] at h
+    exact h.2
+
 theorem eval_pairsToStep (t : List (Nat × Nat)) (h : sortedPairs t = true) (cp : Nat) :
     eval false (pairsToStep t) cp = t.any (fun e => e.1 ≤ cp && cp ≤ e.2) := by
-  sorry
+  induction t with
+  | nil => rfl
+  | cons e r ih =>
+    obtain ⟨hp, hb⟩ := sortedPairs_pairwise _ h
+    have hr := (List.pairwise_cons.mp hp).1
+    have hbe := hb e (by simp)
+    have ih := ih (sortedPairs_tail e r h)
+    simp only [pairsToStep, eval, List.any_cons]
+    by_cases h1 : cp < e.1
+    · have : r.any (fun e => decide (e.1 ≤ cp) && decide (cp ≤ e.2)) = false := by
+        rw [List.any_eq_false]
+        intro x hx
+        have := hr x hx
+        simp; omega
+      have hd : decide (e.1 ≤ cp) = false := by simp; omega
+      simp [h1, this, hd]
+    · by_cases h2 : cp < e.2 + 1
+      · have hd1 : decide (e.1 ≤ cp) = true := by simp; omega
+        have hd2 : decide (cp ≤ e.2) = true := by simp; omega
+        simp [h1, h2, hd1, hd2]
+      · have hd2 : decide (cp ≤ e.2) = false := by simp; omega
+        simp only [h1, h2, if_false, ih, hd2, Bool.and_false, Bool.false_or]
 
 /-- key → value table → step function -/
 def kvToStep {V} : List (Nat × V) → List (Nat × Option V)
   | [] => []
   | (k, v) :: r => (k, some v) :: (k + 1, none) :: kvToStep r
 
+theorem sortedKeys_tail {V} (e : Nat × V) (r : List (Nat × V)) (h : sortedKeys (e :: r) = true) :
+    sortedKeys r = true := by
+  cases r with
+  | nil => rfl
+  | cons e' r =>
+    simp only [sortedKeys, Bool.and_eq_true] at h
+    exact h.2
+
 theorem eval_kvToStep {V} (t : List (Nat × V)) (h : sortedKeys t = true) (cp : Nat) :
     eval none (kvToStep t) cp = t.lookup cp := by
-  sorry
+  induction t with
+  | nil => rfl
+  | cons x r ih =>
+    obtain ⟨k, v⟩ := x
+    have hp := sortedKeys_pairwise _ h
+    have hr := (List.pairwise_cons.mp hp).1
+    have ih := ih (sortedKeys_tail _ r h)
+    simp only [kvToStep, eval, List.lookup_cons]
+    by_cases h1 : cp < k
+    · have : r.lookup cp = none := by
+        apply lookup_eq_none'
+        intro y hy
+        have := hr y hy
+        simp only at this
+        omega
+      have hd : (cp == k) = false := by simp; omega
+      simp [h1, this, hd]
+    · by_cases h2 : cp < k + 1
+      · have hd : (cp == k) = true := by simp; omega
+        simp [h1, h2, hd]
+      · have hd : (cp == k) = false := by simp; omega
+        simp only [h1, h2, if_false, ih, hd]
 
 /-! the model's look-ups as step functions -/
 
